@@ -201,3 +201,117 @@ pub proof fn lemma_started_chain_is_the_pipeline(q: Box<dyn Process>, p: Box<dyn
 {
     assert(s.fut(rows) == q.sfut(Seq::empty(), rows));
 }
+
+// ================= C09: --group-by as a pure function =================
+pub type Gs = Seq<(String, Seq<JsonValue>)>;
+pub open spec fn gs_distinct(gs: Gs) -> bool { forall|i: int, j: int| 0 <= i < j < gs.len() ==> (#[trigger] gs[i]).0 != (#[trigger] gs[j]).0 }
+pub open spec fn gs_idx(gs: Gs, k: String) -> int { choose|i: int| 0 <= i < gs.len() && gs[i].0 == k }
+// the rows collected under key k (none when there is no such group)
+pub open spec fn gs_members(gs: Gs, k: String) -> Seq<JsonValue> { if has_group(gs, k) { gs[gs_idx(gs, k)].1 } else { Seq::empty() } }
+pub open spec fn gs_keys(gs: Gs) -> Seq<String> { Seq::new(gs.len(), |i: int| gs[i].0) }
+pub proof fn lemma_group_add(gs: Gs, k: String, v: JsonValue, k2: String)
+    requires gs_distinct(gs),
+    ensures gs_distinct(group_add(gs, k, v)),
+        gs_members(group_add(gs, k, v), k2) == (if k2 == k { gs_members(gs, k).push(v) } else { gs_members(gs, k2) }),
+        gs_keys(group_add(gs, k, v)) == (if has_group(gs, k) { gs_keys(gs) } else { gs_keys(gs).push(k) }),
+{
+    let g2 = group_add(gs, k, v);
+    if has_group(gs, k) {
+        let i = gs_idx(gs, k);
+        assert(g2 == gs.update(i, (k, gs[i].1.push(v))));
+        assert forall|a: int, b: int| 0 <= a < b < g2.len() implies (#[trigger] g2[a]).0 != (#[trigger] g2[b]).0 by { assert(g2[a].0 == gs[a].0 && g2[b].0 == gs[b].0); }
+        assert(gs_keys(g2) =~= gs_keys(gs));
+        if k2 == k {
+            assert(g2[i].0 == k);
+            assert(has_group(g2, k));
+            let j = gs_idx(g2, k);
+            assert(g2[j].0 == gs[j].0);
+            if j != i { if j < i { assert(gs[j].0 != gs[i].0); } else { assert(gs[i].0 != gs[j].0); } }
+        } else {
+            if has_group(gs, k2) {
+                let a = gs_idx(gs, k2);
+                assert(g2[a].0 == k2);
+                assert(has_group(g2, k2));
+                let b = gs_idx(g2, k2);
+                assert(g2[b].0 == gs[b].0);
+                if a != b { if a < b { assert(gs[a].0 != gs[b].0); } else { assert(gs[b].0 != gs[a].0); } }
+                assert(a != i);
+            } else {
+                if has_group(g2, k2) { let b = gs_idx(g2, k2); assert(g2[b].0 == gs[b].0); assert(gs[b].0 == k2); assert(false); }
+            }
+        }
+    } else {
+        assert(g2 == gs.push((k, seq![v])));
+        assert forall|a: int, b: int| 0 <= a < b < g2.len() implies (#[trigger] g2[a]).0 != (#[trigger] g2[b]).0 by {
+            if b < gs.len() { assert(g2[a] == gs[a] && g2[b] == gs[b]); } else { assert(g2[a] == gs[a]); assert(g2[b].0 == k); if gs[a].0 == k { assert(has_group(gs, k)); } }
+        }
+        assert(gs_keys(g2) =~= gs_keys(gs).push(k));
+        if k2 == k {
+            assert(g2[gs.len() as int].0 == k);
+            assert(has_group(g2, k));
+            let j = gs_idx(g2, k);
+            if j < gs.len() { assert(g2[j] == gs[j]); assert(has_group(gs, k)); }
+            assert(gs_members(gs, k) =~= Seq::<JsonValue>::empty());
+            assert(seq![v] =~= Seq::<JsonValue>::empty().push(v));
+        } else {
+            if has_group(gs, k2) {
+                let a = gs_idx(gs, k2);
+                assert(g2[a] == gs[a]);
+                assert(has_group(g2, k2));
+                let b = gs_idx(g2, k2);
+                if b == gs.len() { assert(g2[b].0 == k); } else {
+                    assert(g2[b] == gs[b]);
+                    if a != b { if a < b { assert(gs[a].0 != gs[b].0); } else { assert(gs[b].0 != gs[a].0); } }
+                }
+            } else {
+                if has_group(g2, k2) { let b = gs_idx(g2, k2); if b < gs.len() { assert(g2[b] == gs[b]); assert(has_group(gs, k2)); } else { assert(g2[b].0 == k); } assert(false); }
+            }
+        }
+    }
+}
+// the built rows whose group key is k, in arrival order; and the keys in first-seen order
+pub open spec fn rows_of_key(g: Rc<dyn Get>, k: String, r: Seq<Context>) -> Seq<JsonValue>
+    decreases r.len()
+{
+    if r.len() == 0 { Seq::empty() } else if group_key(g, r[0]) == Some(k) { seq![ctx_build(r[0])].add(rows_of_key(g, k, tail(r))) } else { rows_of_key(g, k, tail(r)) }
+}
+pub open spec fn first_seen(g: Rc<dyn Get>, seen: Seq<String>, r: Seq<Context>) -> Seq<String>
+    decreases r.len()
+{
+    if r.len() == 0 { seen } else {
+        match group_key(g, r[0]) {
+            Some(k) => first_seen(g, if seen.contains(k) { seen } else { seen.push(k) }, tail(r)),
+            None => first_seen(g, seen, tail(r)),
+        }
+    }
+}
+pub proof fn lemma_keys_contains(gs: Gs, k: String)
+    ensures gs_keys(gs).contains(k) == has_group(gs, k),
+{
+    if gs_keys(gs).contains(k) { let i = choose|i: int| 0 <= i < gs_keys(gs).len() && gs_keys(gs)[i] == k; assert(gs[i].0 == k); }
+    if has_group(gs, k) { let i = gs_idx(gs, k); assert(gs_keys(gs)[i] == k); }
+}
+// THE THEOREM (C09): the object --group-by emits has one member per distinct string key, in first-seen order, and under each key
+// exactly the built rows with that key, each once, in arrival order; rows without a string key are dropped
+pub proof fn lemma_group_all(g: Rc<dyn Get>, gs: Gs, r: Seq<Context>, k: String)
+    requires gs_distinct(gs),
+    ensures gs_distinct(group_all(g, gs, r)),
+        gs_members(group_all(g, gs, r), k) == gs_members(gs, k).add(rows_of_key(g, k, r)),
+        gs_keys(group_all(g, gs, r)) == first_seen(g, gs_keys(gs), r), // @obl THY.C09.groups : C09 C03
+    decreases r.len(),
+{
+    if r.len() == 0 { assert(gs_members(gs, k).add(Seq::<JsonValue>::empty()) =~= gs_members(gs, k)); }
+    else {
+        match group_key(g, r[0]) {
+            Some(k0) => {
+                let v = ctx_build(r[0]);
+                lemma_group_add(gs, k0, v, k);
+                lemma_keys_contains(gs, k0);
+                let g2 = group_add(gs, k0, v);
+                lemma_group_all(g, g2, tail(r), k);
+                if k == k0 { assert(gs_members(gs, k).push(v).add(rows_of_key(g, k, tail(r))) =~= gs_members(gs, k).add(seq![v].add(rows_of_key(g, k, tail(r))))); }
+            },
+            None => { lemma_group_all(g, gs, tail(r), k); },
+        }
+    }
+}
